@@ -177,7 +177,19 @@ def _concrete_ord(name):
     return m
 
 
+def _u8_is_ascii(it, p, fid, fn, t, args):
+    a = args[0]
+    n = 0
+    while isinstance(a, absint.Ptr) and n < 4:
+        a = it.deref(p, a)
+        n += 1
+    if isinstance(a, Int) and a.ty == "u8":
+        return absint.mkbool(a.v < 128)
+    return NotImplemented
+
+
 MODELS = {
+    "core::num::<impl u8>::is_ascii": _u8_is_ascii,
     "core::cmp::PartialOrd::lt": _concrete_ord("lt"),
     "core::cmp::PartialOrd::le": _concrete_ord("le"),
     "core::cmp::PartialOrd::gt": _concrete_ord("gt"),
